@@ -16,23 +16,27 @@ cargo +nightly fuzz build --fuzz-dir fuzz -s none > "$ROOT/harness/target/fuzz-b
 BIN="$ROOT/fuzz/target/x86_64-unknown-linux-gnu/release"
 TOTAL=0
 SUMMARY="{\"runs_per_job\": $RUNS, \"jobs\": $JOBS, \"seed\": $SEED, \"targets\": {"
-first=1
-for T in decoders raw_proof raw_compressed raw_verifier raw_pp raw_prover; do
+# all targets run concurrently; jobs and runs per target are weighted by the cost of one input
+# (a prover decode costs milliseconds, a proof decode microseconds): target:jobs:runs-divisor:max_len
+PLAN="decoders:4:1:64 raw_proof:2:1:1008 raw_compressed:3:2:2048 raw_verifier:3:1:2048 raw_pp:2:4:4096 raw_prover:2:10:48000"
+pids=()
+for ENTRY in $PLAN; do
+  IFS=: read -r T PER DIV ML <<< "$ENTRY"
   RUN="$ROOT/fuzz/corpus-run/$T"
   rm -rf "$RUN"; mkdir -p "$RUN" "$ROOT/fuzz/artifacts/$T"
   [ -d "$ROOT/corpus/$T" ] && cp "$ROOT/corpus/$T"/* "$RUN"/ 2>/dev/null
-  case "$T" in raw_proof) ML=1008;; raw_compressed) ML=2048;; raw_verifier) ML=2048;; raw_pp) ML=4096;; raw_prover) ML=48000;; *) ML=64;; esac
-  # the prover decoder costs milliseconds per input: a tenth of the runs
-  TR=$RUNS; [ "$T" = raw_prover ] && TR=$((RUNS / 10 + 1))
-  PER=$(( (JOBS + 2) / 3 ))   # three targets' worth of jobs at a time
-  pids=()
+  TR=$(( RUNS / DIV + 1 ))
   for j in $(seq 1 $PER); do
     "$BIN/$T" "$RUN" -runs="$TR" -seed=$((SEED + j)) -len_control=0 -max_len=$ML -timeout=60 -rss_limit_mb=4096 \
        -artifact_prefix="$ROOT/fuzz/artifacts/$T/" > "$ROOT/fuzz/corpus-run/$T.$j.log" 2>&1 &
     pids+=($!)
   done
-  crashed=0
-  for p in "${pids[@]}"; do wait "$p" || crashed=1; done
+done
+for p in "${pids[@]}"; do wait "$p"; done
+first=1
+for ENTRY in $PLAN; do
+  IFS=: read -r T PER DIV ML <<< "$ENTRY"
+  RUN="$ROOT/fuzz/corpus-run/$T"
   execs=$(grep -ho "Done [0-9]* runs" "$ROOT/fuzz/corpus-run/$T".*.log 2>/dev/null | awk '{s+=$2} END {print s+0}')
   cov=$(grep -ho "cov: [0-9]*" "$ROOT/fuzz/corpus-run/$T".*.log 2>/dev/null | awk '{ if ($2>m) m=$2 } END {print m+0}')
   ncrash=$(ls "$ROOT/fuzz/artifacts/$T" 2>/dev/null | wc -l)
